@@ -805,8 +805,14 @@ def gen_scool(rng, cfg, fault=False):
     names = rng.sample(CELL_NAMES, ncell)
     per_cell = rng.random() < 0.4
     cells = {}
+    # "meeting" cells: each cell's table begins with the very pixel some other cell's table ends with
+    # (several one-pixel cells holding the same pixel, the others starting with it): perfectly valid,
+    # whatever is remembered from one cell's stream must not be held against the next
+    meet = ncell >= 2 and rng.random() < 0.15
     for nm in names:
         support = gen.gen_support(rng, n, symm, rng.choice([None, "empty", "dense", "diag", "sparse"]), 30)
+        if meet:
+            support = [(0, 0)] if rng.random() < 0.5 else sorted(set(support) | {(0, 0)})
         rec = gen.pixels_record(support, gen.gen_values(rng, len(support), colspec))
         form = rng.choice(["df", "iter", "iterdict"])
         sizes = [len(support)] if form == "df" else gen.split_chunks(rng, len(support))
